@@ -2,8 +2,8 @@
 
     Three things can exhaust fuel in the model: the recursion of [_update_recursive] ([rec_fuel]), the
     recursion of a pull through pull-based components, and the run loop itself.  For compositions whose
-    links carry pass-through adapters, non-negative fixed delays and buffering adapters, and whose pull-based
-    components form no cycle among themselves, none of them does. *)
+    links carry pass-through adapters, buffering adapters, DelayToPush and delay adapters with non-negative delays
+    (DelayFixed, DelayToPull), and whose pull-based components form no cycle among themselves, none of them does. *)
 From Coq Require Import List ZArith Bool Arith Lia.
 From FV Require Import Base Sched.
 From FVP Require Import Adapters_proofs Sched_proofs Confluence_proofs.
@@ -11,7 +11,11 @@ Import ListNotations.
 Open Scope Z_scope.
 
 Definition simple_adapter (a : adapter) : bool :=
-  match a with APass | ABuf => true | AFixed d => 0 <=? d | _ => false end.
+  match a with
+  | APass | ABuf | AToPush => true
+  | AFixed d => 0 <=? d
+  | AToPull _ extra => 0 <=? extra
+  end.
 
 Record term_ok (cs : composition) (rank : nat -> nat) : Prop := {
   to_wf : wf cs;
@@ -179,18 +183,208 @@ Qed.
 
 (** ** 3. the run loop: all times stay below a bound, every update consumes some of the distance to it *)
 
-Lemma sched_walk_simple_le ch : forall ss init pt b t lt,
-  forallb simple_adapter ch = true ->
-  sched_walk ch ss init pt b t = Some lt -> lt <= Z.max t init.
+(** the remembered pull times of the DelayToPull adapters of a link are bounded by [B] *)
+Fixpoint pulls_ok (ch : list adapter) (ss : list (list Z)) (B : Z) : Prop :=
+  match ch, ss with
+  | a :: ch', s :: ss' =>
+      (match a with AToPull _ _ => Forall (fun x => x <= B) s | _ => True end) /\ pulls_ok ch' ss' B
+  | _, _ => True
+  end.
+
+Lemma pulls_ok_mono ch : forall ss B B', B <= B' -> pulls_ok ch ss B -> pulls_ok ch ss B'.
 Proof.
-  induction ch as [|a ch IH]; intros ss init pt b t lt H W; simpl in W; [inversion W; lia|].
+  induction ch as [|a ch IH]; intros ss B B' HB H; [exact I|]. destruct ss as [|s ss]; [exact I|].
+  destruct H as [H1 H2]. split; [|eapply IH; eauto].
+  destruct a; auto. eapply Forall_impl; [|exact H1]. simpl. intros x Hx. lia.
+Qed.
+
+Lemma pulls_ok_no_topull ch : forall ss B, no_topull ch = true -> pulls_ok ch ss B.
+Proof.
+  induction ch as [|a ch IH]; intros ss B H; [exact I|]. destruct ss as [|s ss]; [exact I|].
+  destruct a; simpl in H; try discriminate; (split; [exact I|apply IH; exact H]).
+Qed.
+
+Lemma pulls_ok_empty ch B : pulls_ok ch (map (fun _ => []) ch) B.
+Proof. induction ch as [|a ch IH]; [exact I|]. simpl. split; [destruct a; auto|exact IH]. Qed.
+
+Lemma hd_le init (s : list Z) B : init <= B -> Forall (fun x => x <= B) s -> hd init s <= B.
+Proof. intros Hi H. destruct s as [|x s]; [exact Hi|]. inversion H; subst. assumption. Qed.
+
+Lemma sched_walk_simple_le ch : forall ss init pt b t lt B,
+  forallb simple_adapter ch = true -> pulls_ok ch ss B -> t <= B -> init <= B ->
+  sched_walk ch ss init pt b t = Some lt -> lt <= B.
+Proof.
+  induction ch as [|a ch IH]; intros ss init pt b t lt B H P Ht Hi W; simpl in W; [inversion W; lia|].
   destruct ss as [|s ss]; [inversion W; lia|].
-  simpl in H. apply andb_prop in H. destruct H as [Ha H].
-  destruct b; [specialize (IH _ _ _ _ _ _ H W); lia|].
+  simpl in H. apply andb_prop in H. destruct H as [Ha H]. destruct P as [P1 P2].
+  destruct b; [exact (IH _ _ _ _ _ _ _ H P2 Ht Hi W)|].
   destruct a; try discriminate.
-  - specialize (IH _ _ _ _ _ _ H W). lia.
-  - simpl in Ha. apply Z.leb_le in Ha. specialize (IH _ _ _ _ _ _ H W). simpl in IH. rewrite clamp_max in IH. lia.
-  - specialize (IH _ _ _ _ _ _ H W). lia.
+  - exact (IH _ _ _ _ _ _ _ H P2 Ht Hi W).
+  - simpl in Ha. apply Z.leb_le in Ha. refine (IH _ _ _ _ _ _ _ H P2 _ Hi W). simpl. rewrite clamp_max. lia.
+  - simpl in Ha. apply Z.leb_le in Ha. refine (IH _ _ _ _ _ _ _ H P2 _ Hi W). simpl. rewrite clamp_max.
+    pose proof (hd_le init s B Hi P1). lia.
+  - exact (IH _ _ _ _ _ _ _ H P2 Ht Hi W).
+Qed.
+
+Lemma Forall_skipn {A} (P : A -> Prop) n : forall l, Forall P l -> Forall P (skipn n l).
+Proof. induction n as [|n IH]; intros l H; [exact H|]. destruct l as [|x l]; [exact H|]. inversion H; subst. apply IH; assumption. Qed.
+
+(** a pull keeps the bound *)
+Lemma pull_chain_pulls_ok ch : forall ss init pt t B,
+  forallb simple_adapter ch = true -> pulls_ok ch ss B -> t <= B -> init <= B ->
+  pulls_ok ch (snd (pull_chain ch ss init pt t)) B.
+Proof.
+  induction ch as [|a ch IH]; intros ss init pt t B H P Ht Hi; [exact I|].
+  destruct ss as [|s ss]; [exact I|].
+  simpl in H. apply andb_prop in H. destruct H as [Ha H]. destruct P as [P1 P2].
+  destruct a; simpl.
+  - specialize (IH ss init pt t B H P2 Ht Hi). destruct (pull_chain ch ss init pt t) as [[r b] s2]. simpl in *. auto.
+  - simpl in Ha. apply Z.leb_le in Ha.
+    assert (Ht' : clamp init (t - d) <= B) by (rewrite clamp_max; lia).
+    specialize (IH ss init pt _ B H P2 Ht' Hi). destruct (pull_chain ch ss init pt (clamp init (t - d))) as [[r b] s2]. simpl in *. auto.
+  - simpl in Ha. apply Z.leb_le in Ha. pose proof (hd_le init s B Hi P1) as Hh.
+    assert (Ht' : clamp init (hd init s - extra) <= B) by (rewrite clamp_max; lia).
+    specialize (IH ss init pt _ B H P2 Ht' Hi).
+    destruct (pull_chain ch ss init pt (clamp init (hd init s - extra))) as [[r b] s2]. simpl in *. split; [|exact IH].
+    unfold trim. apply Forall_skipn. apply Forall_app. split; [|constructor; [exact Ht|constructor]].
+    destruct s; [constructor; [exact Hi|constructor]|exact P1].
+  - assert (Ht' : (match pt with None => init | Some p => if p <? t then p else t end) <= B).
+    { destruct pt as [p|]; [|exact Hi]. destruct (p <? t) eqn:E; [apply Z.ltb_lt in E; lia|exact Ht]. }
+    specialize (IH ss init pt _ B H P2 Ht' Hi).
+    destruct (pull_chain ch ss init pt (match pt with None => init | Some p => if p <? t then p else t end)) as [[r b] s2].
+    simpl in *. auto.
+  - simpl. auto.
+Qed.
+
+(** the invariant: for every input of a time component, the remembered pull times are bounded by
+    max (bound of the component, initial time of the link) *)
+Definition PI (cs : composition) (lk : nat -> nat -> list (list Z)) (bnd : nat -> Z) : Prop :=
+  forall c k inp, is_time cs c = true -> nth_error (c_inputs (getc cs c)) k = Some inp ->
+    pulls_ok (i_chain inp) (lk c k) (Z.max (bnd c) (init_of cs (i_src inp))).
+
+Definition PInv (cs : composition) (st : state) : Prop := PI cs (s_link st) (s_time st).
+
+Definition all_simple (cs : composition) : Prop :=
+  forall c k inp, nth_error (c_inputs (getc cs c)) k = Some inp -> forallb simple_adapter (i_chain inp) = true.
+
+Lemma PI_upd2 cs (AS : all_simple cs) lk bnd c k inp t pt :
+  PI cs lk bnd ->
+  (is_time cs c = true -> nth_error (c_inputs (getc cs c)) k = Some inp /\ t <= bnd c) ->
+  PI cs (upd2 lk c k (snd (pull_chain (i_chain inp) (lk c k) (init_of cs (i_src inp)) pt t))) bnd.
+Proof.
+  intros P Hc c' k' inp' Tc' Hk'. unfold upd2.
+  destruct (Nat.eqb c' c && Nat.eqb k' k) eqn:E; [|apply P; assumption].
+  apply andb_prop in E. destruct E as [E1 E2]. apply Nat.eqb_eq in E1, E2. subst c' k'.
+  destruct (Hc Tc') as [Hk Ht]. rewrite Hk in Hk'. inversion Hk'; subst inp'.
+  apply pull_chain_pulls_ok; [exact (AS c k inp Hk)|apply P; assumption|lia|lia].
+Qed.
+
+Lemma pull_list_pres (P : state -> Prop) rec : forall ins k0 s a s' a' e,
+  (forall k x s1 a1 s2 a2 e2, P s1 -> rec k x s1 a1 = (s2, a2, e2) -> P s2) ->
+  P s -> pull_list rec k0 ins s a = (s', a', e) -> P s'.
+Proof.
+  induction ins as [|x ins IH]; intros k0 s a s' a' e Hrec Hp H; simpl in H; [inversion H; subst; exact Hp|].
+  destruct (rec k0 x s a) as [[s2 a2] e2] eqn:R. pose proof (Hrec _ _ _ _ _ _ _ Hp R) as P2.
+  destruct e2; [inversion H; subst; exact P2|]. eapply IH; eauto.
+Qed.
+
+Lemma pull_list_pres_idx cs c (P : state -> Prop) rec : forall ins k0 s a s' a' e,
+  (forall j x, nth_error ins j = Some x -> nth_error (c_inputs (getc cs c)) (k0 + j) = Some x) ->
+  (forall k x s1 a1 s2 a2 e2, nth_error (c_inputs (getc cs c)) k = Some x -> P s1 -> rec k x s1 a1 = (s2, a2, e2) -> P s2) ->
+  P s -> pull_list rec k0 ins s a = (s', a', e) -> P s'.
+Proof.
+  induction ins as [|x ins IH]; intros k0 s a s' a' e Hidx Hrec Hp H; simpl in H; [inversion H; subst; exact Hp|].
+  destruct (rec k0 x s a) as [[s2 a2] e2] eqn:R.
+  assert (Hx : nth_error (c_inputs (getc cs c)) k0 = Some x).
+  { specialize (Hidx O x eq_refl). now rewrite Nat.add_0_r in Hidx. }
+  pose proof (Hrec _ _ _ _ _ _ _ Hx Hp R) as P2.
+  destruct e2; [inversion H; subst; exact P2|]. eapply (IH (S k0)); eauto.
+  intros j y Hj. specialize (Hidx (S j) y Hj). now replace (S k0 + j)%nat with (k0 + S j)%nat by lia.
+Qed.
+
+(** pulls change neither times nor counts, and keep [PI] for any bound that covers the pull time *)
+Lemma pull_input_PI cs (AS : all_simple cs) bnd fuel : forall st c k inp t acc st' acc' e,
+  (is_time cs c = true -> nth_error (c_inputs (getc cs c)) k = Some inp /\ t <= bnd c) ->
+  PI cs (s_link st) bnd ->
+  pull_input fuel cs st c k inp t acc = (st', acc', e) ->
+  PI cs (s_link st') bnd /\ s_time st' = s_time st.
+Proof.
+  induction fuel as [|fuel IH]; intros st c k inp t acc st' acc' e Hc P H; simpl in H; [inversion H; subst; auto|].
+  pose proof (PI_upd2 cs AS (s_link st) bnd c k inp t (ptime_of cs st (i_src inp)) P Hc) as P1.
+  destruct (pull_chain (i_chain inp) (s_link st c k) (init_of cs (i_src inp)) (ptime_of cs st (i_src inp)) t) as [[r b] ss'].
+  simpl in P1.
+  destruct (is_static_src cs (i_src inp)); [inversion H; subst; auto|].
+  destruct b; [inversion H; subst; auto|].
+  destruct (is_time cs (fst (i_src inp))) eqn:Ts; [inversion H; subst; auto|].
+  set (st1 := mkS (s_time st) (s_cnt st) (upd2 (s_link st) c k ss')) in *.
+  apply (pull_list_pres (fun s => PI cs (s_link s) bnd /\ s_time s = s_time st)) in H; [exact H| |split; [exact P1|reflexivity]].
+  intros k1 x s1 a1 s2 a2 e2 [Q1 Q2] R.
+  destruct (IH s1 (fst (i_src inp)) k1 x r a1 s2 a2 e2) as [R1 R2]; [intros E; congruence|exact Q1|exact R|].
+  split; [exact R1|congruence].
+Qed.
+
+Lemma PI_mono cs lk bnd bnd' : (forall c, bnd c <= bnd' c) -> PI cs lk bnd -> PI cs lk bnd'.
+Proof. intros Hb P c k inp Tc Hk. eapply pulls_ok_mono; [|apply P; eassumption]. specialize (Hb c). lia. Qed.
+
+Lemma do_update_PInv cs (W : wf cs) (AS : all_simple cs) st c acc st' acc' e :
+  is_time cs c = true -> PInv cs st -> do_update cs st c acc = (st', acc', e) -> PInv cs st'.
+Proof.
+  intros Tc P H. unfold do_update, pull_all in H.
+  set (nt := next_time cs st c) in *.
+  destruct (pull_list (fun k x s a => pull_input (S (length cs)) cs s c k x nt a) O (c_inputs (getc cs c)) st (EU c nt :: acc))
+    as [[st1 acc1] e1] eqn:PL.
+  inversion H; subst st' acc' e. clear H.
+  pose proof (next_time_gt cs W st c Tc) as Hgt. fold nt in Hgt.
+  set (bnd := upd (s_time st) c nt).
+  assert (Hb : forall x, s_time st x <= bnd x).
+  { intros x. unfold bnd, upd. destruct (Nat.eqb x c) eqn:E; [apply Nat.eqb_eq in E; subst; lia|lia]. }
+  assert (Hbc : bnd c = nt) by (unfold bnd, upd; now rewrite Nat.eqb_refl).
+  apply (pull_list_pres_idx cs c (fun s => PI cs (s_link s) bnd /\ s_time s = s_time st)) in PL.
+  - destruct PL as [Q1 Q2]. unfold PInv. cbn [s_link s_time]. rewrite Q2. exact Q1.
+  - intros j x Hj. exact Hj.
+  - intros k x s1 a1 s2 a2 e2 Hx [Q1 Q2] R.
+    destruct (pull_input_PI cs AS bnd _ _ _ _ _ _ _ _ _ _ (fun _ => conj Hx (Z.eq_le_incl _ _ (eq_sym Hbc))) Q1 R) as [R1 R2].
+    split; [exact R1|congruence].
+  - split; [|reflexivity]. eapply PI_mono; [exact Hb|exact P].
+Qed.
+
+(** the state after connect *)
+Lemma init_pulls_PI cs (AS : all_simple cs) bnd c : forall ins k lk,
+  (is_time cs c = true -> t0_of cs <= bnd c) ->
+  (forall j x, nth_error ins j = Some x -> nth_error (c_inputs (getc cs c)) (k + j) = Some x) ->
+  PI cs lk bnd -> PI cs (init_pulls_from cs c k ins lk) bnd.
+Proof.
+  induction ins as [|x ins IH]; intros k lk Hb Hidx P; [exact P|]. simpl.
+  assert (Hx : nth_error (c_inputs (getc cs c)) k = Some x).
+  { specialize (Hidx O x eq_refl). now rewrite Nat.add_0_r in Hidx. }
+  pose proof (PI_upd2 cs AS lk bnd c k x (t0_of cs) None P (fun Tc => conj Hx (Hb Tc))) as P1.
+  destruct (pull_chain (i_chain x) (lk c k) (init_of cs (i_src x)) None (t0_of cs)) as [[r b] ss']. simpl in P1.
+  apply IH; [exact Hb| |exact P1].
+  intros j y Hj. specialize (Hidx (S j) y Hj). now replace (S k + j)%nat with (k + S j)%nat by lia.
+Qed.
+
+Lemma init_links_PI cs (AS : all_simple cs) bnd :
+  (forall c, is_time cs c = true -> t0_of cs <= bnd c) ->
+  forall l k lk, (forall j x, nth_error l j = Some x -> nth_error cs (k + j) = Some x) ->
+  PI cs lk bnd -> PI cs (init_links cs k l lk) bnd.
+Proof.
+  intros Hb. induction l as [|x l IH]; intros k lk Hidx P; [exact P|]. simpl.
+  assert (Hx : nth_error cs k = Some x).
+  { specialize (Hidx O x eq_refl). now rewrite Nat.add_0_r in Hidx. }
+  apply IH.
+  - intros j y Hj. specialize (Hidx (S j) y Hj). now replace (S k + j)%nat with (k + S j)%nat by lia.
+  - destruct (c_kind x) as [s0 steps [|]|] eqn:K; try exact P.
+    apply init_pulls_PI; [exact AS|apply Hb| |exact P].
+    intros j y Hj. unfold getc. rewrite (nth_error_nth _ _ _ Hx). exact Hj.
+Qed.
+
+Lemma init_state_PInv cs (AS : all_simple cs) : PInv cs (init_state cs).
+Proof.
+  unfold PInv, init_state. cbn [s_link s_time].
+  apply init_links_PI; [exact AS| |intros j x Hj; exact Hj|].
+  - intros c Tc. pose proof (t0_le_init cs (c, O)) as H. unfold init_of in H. simpl in H.
+    unfold is_time in Tc. destruct (c_kind (getc cs c)); [exact H|discriminate].
+  - intros c k inp Tc Hk. unfold empty_links. rewrite (nth_error_nth _ _ _ Hk). apply pulls_ok_empty.
 Qed.
 
 Definition Smax (cs : composition) : Z :=
@@ -213,7 +407,7 @@ Qed.
 Lemma Smax_pos cs : 1 <= Smax cs.
 Proof. unfold Smax. apply fold_max_ge_d. Qed.
 
-Lemma update_rec_time_bound cs rank (T : term_ok cs rank) st acc (Hinv : Inv cs st) fuel :
+Lemma update_rec_time_bound cs rank (T : term_ok cs rank) st acc (Hinv : Inv cs st) (HP : PInv cs st) fuel :
   forall c chain tgt u st' acc' e X,
   update_rec fuel cs st acc c chain tgt = UUpdated u st' acc' e ->
   t0_of cs <= X ->
@@ -235,7 +429,14 @@ Proof.
       - pose proof (next_time_le cs st c Tc). pose proof (S_of_le_Smax cs c). specialize (H1 eq_refl). lia.
       - specialize (H2 eq_refl). lia. }
     assert (Hlt : lt <= Z.max tgt' (init_of cs (i_src inp))).
-    { apply link_req_some in Hr. destruct Hr as [_ Hr]. eapply sched_walk_simple_le; [exact (to_simple cs rank T c k inp Hk)|exact Hr]. }
+    { apply link_req_some in Hr. destruct Hr as [_ Hr].
+      eapply sched_walk_simple_le; [exact (to_simple cs rank T c k inp Hk)| | | |exact Hr]; [|lia|lia].
+      destruct (is_time cs c) eqn:Tc.
+      - eapply pulls_ok_mono; [|exact (HP c k inp Tc Hk)].
+        pose proof (next_time_gt cs (to_wf cs rank T) st c Tc). unfold tgt'. lia.
+      - apply pulls_ok_no_topull.
+        pose proof (wf_chain cs (to_wf cs rank T) c k inp Hk) as Wc. unfold chain_wf in Wc. rewrite Tc in Wc.
+        apply andb_prop in Wc. destruct Wc as [_ Wc]. exact Wc. }
     replace (X + Z.of_nat (S fuel) * Smax cs) with ((X + Smax cs) + Z.of_nat fuel * Smax cs) by lia.
     destruct Hc as [[Ti Hrec]|[Tp [Hrec _]]]; unfold rec in Hrec; symmetry in Hrec.
     + specialize (Hlag Ti). specialize (Itime src (snd (i_src inp)) Ti).
@@ -293,13 +494,13 @@ Proof. unfold maxstart. apply fold_max_ge_d. Qed.
 
 (** the run loop does not exhaust [fuel] once [fuel] exceeds the remaining distance [Phi] *)
 Lemma run_loop_nofuel cs rank (T : term_ok cs rank) endt fuel : forall st acc o st' acc',
-  Inv cs st -> TB cs endt st ->
+  Inv cs st -> PInv cs st -> TB cs endt st ->
   (any_running st O cs endt = true \/ forall c, is_time cs c = true -> s_time st c <= maxstart cs) ->
   (Z.to_nat (Phi cs endt st) < fuel)%nat ->
   run_loop fuel cs endt st acc = (o, st', acc') -> o <> OFuel.
 Proof.
   pose proof (to_wf cs rank T) as W. pose proof (Smax_pos cs) as Sp.
-  induction fuel as [|fuel IH]; intros st acc o st' acc' Hinv Htb Hx Hf H; [lia|].
+  induction fuel as [|fuel IH]; intros st acc o st' acc' Hinv HP Htb Hx Hf H; [lia|].
   cbn [run_loop] in H.
   destruct (pick_min cs st 0 cs None) as [c0|] eqn:PM; [|inversion H; discriminate].
   destruct (pick_min_spec cs st c0 PM) as [L0 [T0 Min]].
@@ -319,7 +520,7 @@ Proof.
       { unfold is_time, getc. rewrite (nth_error_nth _ _ _ Hj). destruct Hxk as [s0 [st0 [ip Hxk]]]. now rewrite Hxk. }
       destruct (Min j Lj Tj) as [Hle _]. lia. }
     assert (Hu : s_time st u <= Z.max (maxstart cs) endt + Z.of_nat (rec_fuel cs) * Smax cs).
-    { eapply (update_rec_time_bound cs rank T st acc Hinv); [exact U| |intros _; exact HX0|intros E; congruence].
+    { eapply (update_rec_time_bound cs rank T st acc Hinv HP); [exact U| |intros _; exact HX0|intros E; congruence].
       pose proof (maxstart_ge_t0 cs). lia. }
     assert (Hnew : s_time st1 u <= Bound cs endt).
     { rewrite T1. pose proof (next_time_le cs st u Tu). pose proof (S_of_le_Smax cs u). unfold Bound. nia. }
@@ -332,7 +533,7 @@ Proof.
       - unfold term. rewrite Tu, T1. pose proof (next_time_gt cs W st u Tu). lia.
       - intros x Hxu. unfold term. rewrite T2 by exact Hxu. reflexivity. }
     pose proof (Phi_nonneg cs endt st1 Htb1). pose proof (Phi_nonneg cs endt st Htb).
-    eapply IH; [exact I1|exact Htb1|left; exact AR1| |exact H].
+    eapply IH; [exact I1|exact (do_update_PInv cs W (to_simple cs rank T) st u acc st1 acc1 None Tu HP Du)|exact Htb1|left; exact AR1| |exact H].
     apply Nat.succ_lt_mono in Hf. lia.
   - exfalso. destruct (update_rec_props (rec_fuel cs) cs st acc c0 [] 0) as [HA _].
     destruct (HA U) as [Hf' _]. congruence.
@@ -360,7 +561,7 @@ Lemma run_terminates cs rank endt :
 Proof.
   intros T. exists (S (Z.to_nat (Phi cs endt (init_state cs)))).
   intros fuel o st acc Hf H. unfold run in H.
-  eapply (run_loop_nofuel cs rank T endt fuel); [apply init_state_Inv|apply init_TB| |lia|exact H].
+  eapply (run_loop_nofuel cs rank T endt fuel); [apply init_state_Inv|apply init_state_PInv; exact (to_simple cs rank T)|apply init_TB| |lia|exact H].
   right. intros c Tc.
   rewrite (init_time_is_start cs c Tc). apply maxstart_ge; exact Tc.
 Qed.
